@@ -76,14 +76,21 @@ fn judge(run: &Run, parent: &Sealed, b: &Block, what: &str, must_reject: bool, p
             return;
         }
     };
-    if must_reject && exp.is_some() {
-        // construction error of the harness, not a verdict
-        run.outcome(&format!("mutation-without-effect:{}", what));
-        return;
-    }
     let got = guard(|| parent.apply_block(b).map(|s| s.header()));
     run.validated();
     let replay = json!({"parent_path": path, "block": label, "mutation": what, "block_stdcode_hex": hex::encode(stdcode::serialize(b).unwrap())});
+    if must_reject {
+        // second sentence of the statement: a block altered in a header field or in its transaction set is rejected - whatever
+        // the batch/seal path says about it (the mutated block differs from the honest one by construction)
+        if let Ok(Ok(_)) = &got {
+            run.violation("C06", format!("accepts-altered-block/{}", what), format!("apply_block accepted {} altered by [{}] on [{}]", label, what, path), replay);
+            return;
+        }
+        if exp.is_some() {
+            run.outcome(&format!("altered-block-rejected-although-batch-path-accepts:{}", what));
+            return;
+        }
+    }
     match (exp, got) {
         (_, Err(p)) => {
             run.outcome("apply_block-panicked(reported under C09)");
@@ -110,6 +117,15 @@ fn children(open: &Node, cfg: &AlphaCfg, max_batch: usize) -> Vec<(String, Vec<T
     let mut v: Vec<(String, Vec<Transaction>)> = vec![("empty".into(), vec![])];
     for (l, t, _) in &alpha {
         v.push((l.clone(), vec![t.clone()]));
+    }
+    // dependent members: a transaction and the spend of its first output in one block
+    for (l, a, _) in alpha.iter().take(4) {
+        if let Some(o0) = a.outputs.first() {
+            if o0.covhash == addr_true() && o0.denom == melstructs::Denom::Mel {
+                let b = tx_t(melstructs::TxKind::Normal, vec![a.output_coinid(0)], vec![out_t(o0.value.0, melstructs::Denom::Mel)], 0, vec![0xc4]);
+                v.push((format!("{}+chain", l), vec![a.clone(), b]));
+            }
+        }
     }
     if max_batch >= 2 {
         for i in 0..alpha.len() {
@@ -191,6 +207,14 @@ fn check_parent(run: &Run, pnode: &Node, cfg: &AlphaCfg, max_batch: usize) {
                 let mut b = blk.clone();
                 b.transactions.insert(t.clone());
                 judge(run, &parent, &b, &format!("tx:added-{}", if *ok { "valid" } else { "invalid" }), true, &path, &format!("{} + {}", label, l));
+            }
+            // add a signature variant of a member (same hash_nosigs, different sigs): the set now holds the transaction twice
+            for t in blk.transactions.iter() {
+                let mut b = blk.clone();
+                let mut t2 = t.clone();
+                t2.sigs.push(vec![0xbb; 64].into());
+                b.transactions.insert(t2);
+                judge(run, &parent, &b, "tx:added-signature-variant-of-member", true, &path, &label);
             }
             // replace each transaction: other output value / same hash_nosigs but extra signature
             for t in blk.transactions.iter() {
